@@ -127,6 +127,14 @@ Lemma c12_group_watcher : forall c s, Grp.elock c = true -> Reach (Grp.step c) (
   (Grp.lc s = Grp.LcSel -> Grp.closed_ch s = true -> exists s', Grp.step c s Grp.ALStop = Some s' /\ Grp.lc s' = Grp.LcExit).
 Proof. exact GrpTT.group_watcher. Qed.
 
+(* release() waits for hbDead only in a session whose heartbeat loop was started *)
+Lemma c12_group_release_has_heartbeat : forall c s, Grp.elock c = true -> Reach (Grp.step c) (Grp.init c) s ->
+  ((Grp.cc s = Grp.CWaitCtx \/ (exists r, Grp.cc s = Grp.CRel1 r) \/ (exists r, Grp.cc s = Grp.CRelWait r) \/ (exists r, Grp.cc s = Grp.CRel2 r) \/
+    (exists r, Grp.cc s = Grp.CRelHe r) \/ (exists r, Grp.cc s = Grp.CRel3 r) \/ (exists r, Grp.cc s = Grp.CRel4 r)) -> Grp.hb s <> Grp.HNone) /\
+  ((exists r, Grp.cc s = Grp.CRel4 r) -> Grp.hb_dying s = true) /\
+  (Grp.hb s = Grp.HDone <-> Grp.hb_dead s = true).
+Proof. exact GrpTT.group_release_has_heartbeat. Qed.
+
 (* broker connection: Open's states (dialling / SASL step / open) and the channels Close waits on *)
 Lemma c12_broker_done_has_receiver :
   (forall c l s, run (Broker.step c) (Broker.init c) l = Some s ->
